@@ -16,7 +16,7 @@ let parse_entries s =
     | [k; v] -> (bytes_of_hex k, bytes_of_hex v) | _ -> fail "C38: bad entry %s" kv)
     (String.split_on_char ',' s)
 
-let prefix_of s = if s = "-" then [] else bytes_of_hex s
+let prefix_of s = if s = "-" || s = "empty" then [] else bytes_of_hex s
 
 (* returns (model token, spec token, guard prefix option) *)
 let query t m n q =
@@ -42,7 +42,7 @@ let query t m n q =
 
 let check inp obs =
   match split_ws inp with
-  | "rpc" :: _ver :: ents :: qs ->
+  | (("rpc" | "rpcdb") as mode) :: _ver :: ents :: qs ->
     let es = parse_entries ents in
     let t = trie_of_entries es and m = bm_of_list es in
     let n = List.length es in
@@ -63,7 +63,10 @@ let check inp obs =
     let kinds = List.sort_uniq compare (List.map (fun q -> String.sub q 0 2) qs) in
     let nth_or l i = try List.nth l i with _ -> "<missing>" in
     let multi = List.exists (fun s -> String.contains s '|') spec in
-    let tags = List.map (fun k -> "q-" ^ k) kinds
+    let has_empty = List.exists (fun q -> match String.split_on_char ':' q with
+      | ("KP" | "K1") :: "empty" :: _ -> true | _ -> false) qs in
+    let tags = [mode] @ (if has_empty then ["prefix-empty-string"] else [])
+               @ List.map (fun k -> "q-" ^ k) kinds
                @ (if multi then ["multi-page"] else [])
                @ (if n = 0 then ["empty-state"] else [])
                @ (match pd with Some i -> ["propfail-" ^ String.sub (nth_or qs i) 0 2 ^ "-" ^ slug] | None -> []) in
@@ -74,4 +77,38 @@ let check inp obs =
       finding = slug; tags = String.concat "," tags; detail }
   | _ -> fail "C38: bad input %s" inp
 
-let () = run_driver check
+(* vm_compute cross-check: the model's answers recomputed inside Coq and compared with the RPC's *)
+let coq_keys l = "[" ^ String.concat "; " (List.map coq_bytes l) ^ "]"
+let coq inp obs =
+  match split_ws inp with
+  | ("rpc" | "rpcdb") :: _ver :: ents :: qs when List.length qs = List.length (split_ws obs) ->
+    let es = parse_entries ents in
+    let n = List.length es in
+    if n > 14 then None else
+    let ces = "[" ^ String.concat "; " (List.map (fun (k, v) -> "(" ^ coq_bytes k ^ ", " ^ coq_bytes v ^ ")") es) ^ "]" in
+    let parse_page s = if s = "()" then [] else List.map bytes_of_hex (String.split_on_char ',' s) in
+    let one q o =
+      if o = "err" || o = "panic" then None else
+      match String.split_on_char ':' q with
+      | ["KP"; p; qty] ->
+        let pages = String.split_on_char '|' o in
+        if List.mem "loop" pages then None else
+        Some (Printf.sprintf "check_paging t %s %s %d [%s]" (coq_bytes (prefix_of p)) (coq_n (n_of_hex qty)) (n + 5)
+                (String.concat "; " (List.map (fun pg -> coq_keys (parse_page pg)) pages)))
+      | ["K1"; p; qty; after] ->
+        Some (Printf.sprintf "check_page t %s %s %s %s" (coq_bytes (prefix_of p)) (coq_n (n_of_hex qty))
+                (if after = "nil" then "None" else "(Some " ^ coq_bytes (prefix_of after) ^ ")")
+                (coq_keys (parse_page o)))
+      | ["PR"; p] ->
+        let po = (match p with "nil" | "empty" | "0x" | "-" -> "None" | _ -> "(Some " ^ coq_bytes (bytes_of_hex p) ^ ")") in
+        let prs = if o = "()" then [] else List.map (fun kv -> match String.split_on_char '=' kv with
+          | [k; v] -> "(" ^ coq_bytes (bytes_of_hex k) ^ ", " ^ coq_bytes (bytes_of_hex v) ^ ")"
+          | _ -> fail "C38: bad pair %s" kv) (String.split_on_char ',' o) in
+        Some (Printf.sprintf "check_pairs t %s [%s]" po (String.concat "; " prs))
+      | _ -> None in
+    let terms = List.filter_map (fun x -> x) (List.map2 one qs (split_ws obs)) in
+    if terms = [] then None else
+    Some (Printf.sprintf "let t := trie_of_entries %s in %s" ces (String.concat " && " terms))
+  | _ -> None
+
+let () = run_driver ~coq check
